@@ -464,7 +464,9 @@ class URL(str):
         return super().__new__(cls, str(s).replace(' ', '+'))
 
     def __init__(self, url):
-        if not is_url(url):
+        # `url` must be valid as given and after spaces were replaced (e.g. a
+        # leading space would be stored as an invalid "+http://...")
+        if not is_url(url) or not is_url(self):
             raise error.URLError(url)
         else:
             self._parsed = urllib.parse.urlparse(url)
